@@ -17,7 +17,7 @@ from sim.shrink import list_reductions
 
 GRAMMAR_COLS = {'absent', 'int', '-int', 'name', 'slice', 'slice/step', 'list/names', 'list/ints', 'list/mixed',
                 'tuple/names', 'tuple/ints', 'tuple/mixed', 'list/empty', 'tuple/empty'}
-OTHER_COLS = {'ell', 'boollist', 'npmask', 'npint', 'ndarray', 'range'}
+OTHER_COLS = {'ell', 'boollist', 'npmask', 'npint', 'ndarray', 'range', 'nested'}
 
 
 def K(t, v=None):
@@ -64,7 +64,7 @@ def rand_rows(rng, N):
         return K('int', rng.randint(-N - 1, N))
     if t == 'slice':
         return K('slice', [rng.choice([None, 0, 1, -2, N]), rng.choice([None, -1, N - 1, 2, N + 3]),
-                           rng.choice([None, 1, 2, 3, -1, -2])])
+                           rng.choice([None, 1, 2, 3, -1, -2, 0 if rng.chance(0.3) else 1])])
     if t == 'list':
         return K('list', [rng.randint(-N, N - 1) if N else 0 for _ in range(rng.randint(0, 4))])
     if t == 'mask':
@@ -92,6 +92,8 @@ def rand_cols(rng, D, names):
             v.append(names[p] if rng.chance(0.5) and -D <= p < D else p)
         if rng.chance(0.04):
             v.append('NOPE')
+        if rng.chance(0.04):
+            return K('nested', [v or [0]])            # a list wrapped once too often
         return K(t, v)
     if t in ('boollist', 'npmask'):
         return K(t, [rng.chance(0.5) for _ in range(D if rng.chance(0.9) else D + 1)])
@@ -136,14 +138,15 @@ def meta_eq(a, b):
 
 
 def gen_file(rng, N=None, D=None):
-    D = D or rng.randint(1, 5)
+    D = D or (rng.randint(1, 5) if rng.chance(0.9) else rng.randint(17, 20))
     N = rng.randint(0, 6) if N is None else N
-    names = ['FSC-H', 'SSC-H', 'FL1-H', 'FL2-H', 'Time'][:D]
+    names = (['FSC-H', 'SSC-H', 'FL1-H', 'FL2-H', 'Time'] + ['V%d-A' % j for j in range(1, 16)])[:D]
     dt = rng.wchoice([('I', 6), ('F', 2), ('D', 2)])
     spec = fcsgen.gen_spec(rng, names=names, n_params=D, n_events=N, keywords=False, datatype=dt)
     spec['pads'] = []
     if dt == 'I':
         spec['widths'] = [16] * D if rng.chance(0.5) else [rng.choice([8, 16, 32]) for _ in range(D)]
+        spec['widths'] = [32] * D if D > 12 else spec['widths']
         spec['ranges'] = [1 << (3 + j) for j in range(D)]            # distinct per channel
         spec['events'] = [[(7 * i + 3 * j + 1) % (1 << (3 + j)) for j in range(D)] for i in range(N)]
     else:
@@ -213,7 +216,7 @@ class C04Machine(Machine):
                 rows = rand_rows(rng, h.vals.shape[0])
                 cols = K('absent') if rng.chance(0.85) else rand_cols(rng, len(h.names) or 1, h.names or ['x'])
             if rng.chance(0.12):
-                ops.append({'op': 'edit_range', 'h': hi, 'col': rng.randint(0, 4), 'end': rng.choice([0, 1]),
+                ops.append({'op': 'edit_range', 'h': hi, 'col': rng.randint(0, 19), 'end': rng.choice([0, 1]),
                             'value': rng.choice([-7.0, 0.5, 123456.0])})
                 continue
             if rng.chance(0.3):
